@@ -230,7 +230,7 @@ Lemma dtoa_stage_int : forall n p, 0 < Z.abs n < 2147483648 -> 0 <= p <= 9 ->
 Proof.
   intros n p Hn Hp.
   assert (Hv : reprZ (f_of_Z n) n) by (apply f_of_Z_repr; change (2 ^ 53) with 9007199254740992; lia).
-  unfold dtoa_stage.
+  unfold dtoa_stage, dtoa_stage_gen.
   rewrite (flt_repr _ _ n 0 Hv fzero_repr).
   set (value := if n <? 0 then fneg (f_of_Z n) else f_of_Z n).
   assert (Hval : reprZ value (Z.abs n)).
@@ -278,7 +278,7 @@ Lemma modp_dtoa_int : forall n p, 0 < Z.abs n < 2147483648 -> 0 <= p <= 9 ->
 Proof.
   intros n p Hn Hp.
   assert (Hv : reprZ (f_of_Z n) n) by (apply f_of_Z_repr; change (2 ^ 53) with 9007199254740992; lia).
-  unfold modp_dtoa. rewrite (feq_self _ _ Hv). cbn [negb].
+  unfold modp_dtoa, modp_dtoa_with. rewrite (feq_self _ _ Hv). cbn [negb].
   rewrite clamp_id by exact Hp.
   destruct (dtoa_stage_int n p Hn Hp) as [st [E [Hneg [Hval [Hw0 [Hw Hf]]]]]].
   rewrite E, Hw0, Hw, Hf, Hneg.
@@ -455,11 +455,25 @@ Definition roundtrip_ok (v : f64) (p : Z) : bool :=
   | _ => c08_float_ok v p None
   end.
 
-(* 0.95 at precision 1: the tie branch increments frac = 9 to 10 without roll-over -> "0.1" *)
-Lemma dtoa_rollover_refuted_lemma :
+(* BEFORE a6c4c45 -- 0.95 at precision 1: the tie branch incremented frac = 9 to 10 = 10^p without
+   roll-over and the digit loop printed "0.1"; the repaired stage rolls over to whole = 1, frac = 0
+   and prints "1.0" (still not the correct "0.9": the tie itself is spurious, see the next lemma) *)
+Lemma dtoa_rollover_orig_refuted_lemma :
   let v := f64_of_bits 0x3FEE666666666666 in
-  c08_in_domain v 1 = true /\ fst (float_roundtrip v 1) = DT_text [48; 46; 49] /\
-  c08_render_ok v 1 [48; 46; 49] = false /\ roundtrip_ok v 1 = false.
+  c08_in_domain v 1 = true /\
+  option_map (fun st => (ds_whole st, ds_frac st)) (dtoa_stage_orig v 1) = Some (0, 10) /\
+  modp_dtoa_orig v 1 = DT_text [48; 46; 49] /\
+  option_map (fun st => (ds_whole st, ds_frac st)) (dtoa_stage v 1) = Some (1, 0) /\
+  modp_dtoa v 1 = DT_text [49; 46; 48].
+Proof. vm_compute. repeat split; reflexivity. Qed.
+
+(* 0.95 at precision 1 after the repair: "1.0", one unit in the last place above the correctly
+   rounded "0.9" (the double is 0.94999999999999995559; 0.95 * 10 rounds to 9.5 exactly) *)
+Lemma dtoa_inexact_half_nines_refuted_lemma :
+  let v := f64_of_bits 0x3FEE666666666666 in
+  c08_in_domain v 1 = true /\ fst (float_roundtrip v 1) = DT_text [49; 46; 48] /\
+  c08_render_ok v 1 [49; 46; 48] = false /\ c08_render_ok v 1 [48; 46; 57] = true /\
+  roundtrip_ok v 1 = false.
 Proof. vm_compute. repeat split; reflexivity. Qed.
 
 (* 0.45 at precision 1: (0.45 - 0) * 10 rounds to 4.5 exactly, the tie rule keeps 4 -> "0.4";
